@@ -84,8 +84,8 @@ AtomsB == AtomsQ \cup {Flt(2, 0), P(FALSE, <<C("src"), C("s")>>), P(FALSE, <<C("
 Atoms == IF Big THEN AtomsB ELSE AtomsQ
 SpecFns == {f \in Fns : Canon(f) \in Specified /\ (Big \/ Canon(f) = f)}   \* quick: canonical names (aliases are in the kind matrix)
 Values1 == {Call(f, <<a>>) : f \in Fns, a \in Atoms}
-\* quick: (rep, rep), (special, rep), (rep, special) and the numeric specials among themselves; thorough: all pairs of AtomsB
-Pairs2 == IF Big THEN AtomsB \X AtomsB
+\* quick: (rep, rep), (special, rep), (rep, special) and the numeric specials among themselves; thorough: AtomsB x AtomsQ and AtomsQ x AtomsB
+Pairs2 == IF Big THEN (AtomsB \X AtomsQ) \cup (AtomsQ \X AtomsB)
           ELSE (TypeReps \X TypeReps) \cup (Special \X TypeReps) \cup (TypeReps \X Special) \cup (NumSpecial \X NumSpecial)
 \* functions whose first argument must be a path / clause / body are exercised by their own families (mutate, computed, forms,
 \* scratch, retval) and by the kind matrix; the value matrix takes the functions that work on evaluated values
